@@ -37,23 +37,23 @@ type Ob struct {
 
 // Ctx is the per-run context of one property check.
 type Ctx struct {
-	Prop    string
-	Tier    string
-	Seed    int64
-	RepoDir string
+	Prop     string
+	Tier     string
+	Seed     int64
+	RepoDir  string
 	VerifDir string
 	HomeDir  string // where the checker's own sources and positive controls live
 
-	start  time.Time
-	obs    []Ob
-	seen   map[string]bool
-	loaded map[string]bool // packages loaded
-	funcs  map[string]bool // functions analysed
-	notes  []string
-	allow  []string
-	rules  map[string]string // rule id -> one-line description
-	configs []string
-	extra  map[string]any
+	start    time.Time
+	obs      []Ob
+	seen     map[string]bool
+	loaded   map[string]bool // packages loaded
+	funcs    map[string]bool // functions analysed
+	notes    []string
+	allow    []string
+	rules    map[string]string // rule id -> one-line description
+	configs  []string
+	extra    map[string]any
 	override *loadOpts // thorough tier: re-run under another build configuration
 }
 
@@ -337,24 +337,24 @@ func (c *Ctx) writeEvidence(nOK, nBad, nUnd, nKnown int) {
 		"explanation": "Static analysis of /repo's current source (go/packages + go/types + go/ssa; no code from /repo is executed). " +
 			"Each obligation is one rule applied to one resolved construct; all obligations of the property's structural rules are listed under samples. " +
 			"A passing run means every structural necessary condition stated in DESIGN.md for " + c.Prop + " is discharged on this tree; it does not establish the behavioural property as a whole.",
-		"obligations":         len(c.obs),
-		"discharged":          nOK,
-		"evaluations":         len(c.obs),
-		"distinct_nontrivial": len(distinct),
-		"rule":                "one evaluation = one (rule, construct) obligation decided from the source; non-trivial = not a site-count floor; distinct by rule+construct key",
-		"samples":             samples,
-		"exhaustive":          false,
-		"rules":               rs,
-		"packages_loaded":     pk,
-		"functions_analysed":  fn,
-		"n_functions":         len(fn),
-		"build_configs":       c.configs,
+		"obligations":          len(c.obs),
+		"discharged":           nOK,
+		"evaluations":          len(c.obs),
+		"distinct_nontrivial":  len(distinct),
+		"rule":                 "one evaluation = one (rule, construct) obligation decided from the source; non-trivial = not a site-count floor; distinct by rule+construct key",
+		"samples":              samples,
+		"exhaustive":           false,
+		"rules":                rs,
+		"packages_loaded":      pk,
+		"functions_analysed":   fn,
+		"n_functions":          len(fn),
+		"build_configs":        c.configs,
 		"allow_list_consulted": c.allow,
-		"notes":               c.notes,
-		"undecided":           nUnd,
-		"known_findings":      nKnown,
-		"checker_cmd":         fmt.Sprintf("%s/run check %s --tier %s", c.VerifDir, c.Prop, c.Tier),
-		"trusted_base":        []string{"go/types", "golang.org/x/tools/go/ssa v0.29.0", "golang.org/x/tools/go/packages", "the rule tables in /verif/checker"},
+		"notes":                c.notes,
+		"undecided":            nUnd,
+		"known_findings":       nKnown,
+		"checker_cmd":          fmt.Sprintf("%s/run check %s --tier %s", c.VerifDir, c.Prop, c.Tier),
+		"trusted_base":         []string{"go/types", "golang.org/x/tools/go/ssa v0.29.0", "golang.org/x/tools/go/packages", "the rule tables in /verif/checker"},
 	}
 	if wf := os.Getenv("PERFCHECK_WITNESS"); wf != "" {
 		if b, err := os.ReadFile(wf); err == nil {
